@@ -257,9 +257,12 @@ func genSign(r *c.Rng) *Case {
 
 func genPop(r *c.Rng) *Case {
 	k := &Case{Op: c.Pick(r, []string{"renew", "renew", "rekey", "rekey", "revoke"})}
-	k.CA = c.Pick(r, []string{"both", "both", "both", "fed", "fed", "fed", "host", "user", "linked", "linked"})
+	k.CA = c.Pick(r, []string{"both", "both", "both", "fed", "fed", "fed", "host", "user", "linked", "linked", "userold"})
 	k.Cert = Opts{CertType: "host", KeyID: c.Pick(r, []string{"host.example.com", "h1", ""}), Principals: genPrincipals(r, 3)}
 	k.SignBy, k.Window, k.TokKey, k.Aud, k.Iss, k.Key = "host", "ok", "cert", "ok", "ok", "ed"
+	if k.CA == "userold" && r.Chance(2, 3) {
+		k.SignBy = "oldhost" // the only host root key there
+	}
 	k.SubSer = k.Op == "revoke"
 	if k.Op != "revoke" && r.Chance(1, 3) {
 		k.Via = "api"
@@ -468,6 +471,12 @@ func corner() []*Case {
 		pop("renew", func(k *Case) { k.CA, k.SignBy = "fed", "oldhost" }),
 		pop("rekey", func(k *Case) { k.CA, k.SignBy = "fed", "oldhost" }),
 		pop("revoke", func(k *Case) { k.CA, k.SignBy = "fed", "oldhost" }),
+		pop("renew", func(k *Case) { k.CA, k.SignBy = "userold", "oldhost" }),
+		pop("rekey", func(k *Case) { k.CA, k.SignBy = "userold", "oldhost" }),
+		pop("revoke", func(k *Case) { k.CA, k.SignBy = "userold", "oldhost" }),
+		pop("renew", func(k *Case) { k.CA, k.SignBy, k.Via = "userold", "oldhost", "api" }),
+		pop("renew", func(k *Case) { k.CA, k.SignBy = "userold", "host" }),
+		pop("renew", func(k *Case) { k.CA, k.SignBy, k.Cert.CertType = "userold", "user", "user" }),
 		pop("renew", func(k *Case) { k.CA, k.SignBy = "both", "fedhost" }),
 	}
 }
